@@ -305,21 +305,26 @@ Definition recv_cell (n : nodeT) : cellT := mkCell n (CRecv st0).
 (* the encoders write the response header before they read *)
 Definition enc_cell (k : enck) : cellT := mkCell (enc_node k) (CSend [MStr false] (ACont st0)).
 
+(* the handler loop of the controller (QueryRange, Query, Trace ...): as the code is, it keeps receiving when a write fails *)
+Definition handler_cell_gen (keeps_receiving : bool) : cellT := mkCell (handler_node keeps_receiving) (CRecv st0).
+Definition handler_cell : cellT := handler_cell_gen true.
+
 Record pctx := mkP { p_fix : fpctx; p_limit : Z; p_aggfrom : Z; p_slen : Z; p_instant : bool }.
 
 Definition stages_of (sh : shape) (c : pctx) : list cellT :=
   let menc := if p_instant c then EncVector else EncMatrix in
   match sh with
-  | ShLog => [recv_cell scan_node; enc_cell EncStreams]
+  | ShLog => [recv_cell scan_node; enc_cell EncStreams; handler_cell]
   | ShLogJson => [recv_cell scan_node; recv_cell (wrap_node parser_ops); recv_cell (wrap_node (limit_ops (p_limit c)));
-                  recv_cell (wrap_node optimizer_ops); enc_cell EncStreams]
-  | ShRate => [recv_cell scan_node; recv_cell (wrap_node zero_eater_ops); recv_cell (fixperiod_node (p_fix c)); enc_cell menc]
+                  recv_cell (wrap_node optimizer_ops); enc_cell EncStreams; handler_cell]
+  | ShRate => [recv_cell scan_node; recv_cell (wrap_node zero_eater_ops); recv_cell (fixperiod_node (p_fix c)); enc_cell menc;
+               handler_cell]
   | ShAggJson => [recv_cell scan_node; recv_cell (wrap_node parser_ops);
                   recv_cell (wrap_node (agg_ops (p_aggfrom c) (f_dur (p_fix c)) (p_slen c)));
-                  recv_cell (wrap_node zero_eater_ops); recv_cell (fixperiod_node (p_fix c)); enc_cell menc]
+                  recv_cell (wrap_node zero_eater_ops); recv_cell (fixperiod_node (p_fix c)); enc_cell menc; handler_cell]
   end.
 
-Definition trace_stages : list cellT := [recv_cell oq_node].
+Definition trace_stages : list cellT := [recv_cell oq_node; handler_cell].
 
 (* callbacks that never exhaust the memory *)
 Definition ops_nofatal (o : ops) : Prop :=
